@@ -82,6 +82,9 @@ MUTANTS = [
     ("c16_high_follows_clock", ["C16"], None, [("bromelia/_internal_utils.py",
         "            SessionHandler.init = max(SessionHandler.init, SessionHandler._now())\n",
         "            SessionHandler.init = SessionHandler._now()\n")]),
+    ("c16_read_outside_lock", ["C16"], None, [("bromelia/_internal_utils.py",
+        "            SessionHandler._verify_session_id(previous, current=data)\n\n            high = SessionHandler.init\n            low = SessionHandler.id\n            optional = SessionHandler.optional\n",
+        "            SessionHandler._verify_session_id(previous, current=data)\n\n        high = SessionHandler.init\n        low = SessionHandler.id\n        optional = SessionHandler.optional\n")]),
     ("c08_election_states_trap", ["C08", "C03"], "300", [("bromelia/statemachine.py",
         "        self.set_wait_returns_state(set_name=True)\n\n        #: The election itself is not implemented, but the connection must\n        #: not be trapped in here once the peer is gone or a stop is requested.\n        if (self.is_set_release_signal_from_peer() or \n                self.is_set_stop_request_from_local()):\n            self.set_closed_state()\n",
         "        self.set_wait_returns_state(set_name=True)\n")]),
